@@ -48,7 +48,7 @@ static void c07_run(vf_case *c)
     check_query(c, P, &R0, ilu, "reference");
     int compared = 0, maxexp = exp0, minexp = exp0;
     /* (1) fill estimates 1..8 under library allocation */
-    for (int f = 1; f <= 8 && c->verdict != 1; f++) {
+    for (int f = 1; f <= 8 && c->nmore < 3; f++) {
         if (f > 4 && rng_bool(r, 0.5)) continue;
         vf_ienv_set(6, f);
         fact_run R; fact_do(P, &A, &opt, mypc, NULL, 0, ilu, &R);
@@ -62,14 +62,15 @@ static void c07_run(vf_case *c)
     if (sizeof(int_t) == 4) {
         size_t G = generous_lwork(P, n, A.nnz); unsigned char *buf0 = malloc(G + 64);
         int nws = 0, nshort = 0;
-        for (int pass = 0; pass < 2 && c->verdict != 1; pass++) {
+        for (int pass = 0; pass < 2 && c->nmore < 3; pass++) {
             int f = pass == 0 ? 30 : rng_int(r, 1, 3); vf_ienv_set(6, f);
             size_t len = G; int failed = 0;
-            for (int t = 0; t < 14 && !failed && c->verdict != 1; t++) {
+            for (int t = 0; t < 14 && !failed && c->nmore < 3; t++) {
                 int align4 = rng_bool(r, 0.5); void *work = buf0 + (align4 ? 4 : 8) + (16 - ((uintptr_t)buf0 & 15)) % 16;
                 size_t L = len - rng_int(r, 0, 3) * 4;
                 uint64_t mark = vf_ledger_mark();
                 fact_run R; fact_do(P, &A, &opt, mypc, work, (int_t)L, ilu, &R);
+                if (vf_events_count(VF_EV_STACK_OVERLAP) > 0) { vf_viol(c, "workspace-stack-overlap", "workspace %zu bytes (align %d, fill %d): after a storage growth the head of the workspace stack passed its tail; info=%lld", L, align4 ? 4 : 8, f, (long long)R.info); vf_events_reset(); }
                 if (R.info > n) { failed = 1; nshort++; }
                 else if (R.info != info0) vf_viol(c, "info-depends-on-storage", "workspace %zu bytes (align %d, fill %d): info=%lld, reference info=%lld", L, align4 ? 4 : 8, f, (long long)R.info, (long long)info0);
                 else if (run_hash(P, &R) != h0) vf_viol(c, "factors-depend-on-storage", "workspace %zu bytes (align %d, fill %d, %d expansions): perms/L/U bytes differ from the library-allocation run", L, align4 ? 4 : 8, f, R.stat.expansions);
